@@ -177,8 +177,8 @@ theorem mem_collect (m : JMap) (hn : m.keys.Nodup) (f : Path → Journal → Lis
 def acctNode (a : Account) (decl : Bool) : TNode := ⟨.account, a.name, accountNameRange a, decl⟩
 def comNode (c : Commodity) : TNode := ⟨.commodity, c.symbol, ARange.ofRng c.range, false⟩
 def dirComNode (c : Commodity) (decl : Bool) : TNode := ⟨.commodity, c.symbol, directiveCommodityRange c, decl⟩
-def payNode (tx : Transaction) : TNode :=
-  ⟨.payee, payeeOrDescription tx, estimatePayeeRange tx (payeeOrDescription tx), false⟩
+def payNode (lns : Lines) (tx : Transaction) : TNode :=
+  ⟨.payee, payeeOrDescription tx, payeeRange lns tx (payeeOrDescription tx), false⟩
 
 theorem mem_commodityNode (c : Commodity) (n : TNode) :
     n ∈ commodityNode c ↔ c.symbol ≠ [] ∧ n = comNode c := by
@@ -196,13 +196,14 @@ theorem mem_postingNodes (p : Posting) (n : TNode) :
     simp [mem_commodityNode, acctNode, accountNameRange, nameRange, lexeme, or_assoc]
 
 theorem payeeNode_eq (tx : Transaction) :
-    payeeNode tx = if payeeOrDescription tx = [] then [] else [payNode tx] := by
-  unfold payeeNode payNode payeeOrDescription estimatePayeeRange
+    payeeNode lns tx = if payeeOrDescription tx = [] then [] else [payNode lns tx] := by
+  unfold payeeNode payNode payeeOrDescription payeeRange estimatePayeeRange
+  cases HL.PayeeRange.payeeStart lns tx.date.range.start.line tx.date.range.stop.col <;>
   by_cases hp : tx.payee = [] <;> by_cases hd : tx.description = [] <;> cases hs : tx.status <;>
     simp [hp, hd] <;> decide
 
 theorem mem_txNodes (tx : Transaction) (n : TNode) :
-    n ∈ txNodes tx ↔ (payeeOrDescription tx ≠ [] ∧ n = payNode tx) ∨
+    n ∈ txNodes lns tx ↔ (payeeOrDescription tx ≠ [] ∧ n = payNode lns tx) ∨
       ∃ p ∈ tx.postings, n ∈ postingNodes p := by
   simp only [txNodes, List.mem_append, List.mem_flatMap, payeeNode_eq]
   by_cases h : payeeOrDescription tx = [] <;> simp [h]
@@ -246,7 +247,7 @@ theorem posting_account (p : Posting) (name : Bytes) (incl : Bool) (path : Path)
     exact ⟨acctNode p.account false, (mem_postingNodes p _).mpr (Or.inl rfl), ⟨rfl, hnm, Or.inr rfl⟩, hl⟩
 
 theorem tx_account (tx : Transaction) (name : Bytes) (incl : Bool) (path : Path) (l : Loc) :
-    (∃ n ∈ txNodes tx, Match n .account name incl ∧ l = locOf lns path n) ↔
+    (∃ n ∈ txNodes lns tx, Match n .account name incl ∧ l = locOf lns path n) ↔
     ∃ p ∈ tx.postings, p.account.name = name ∧ l = ⟨path, toLsp lns (accountNameRange p.account)⟩ := by
   constructor
   · rintro ⟨n, hn, hm, hl⟩
@@ -303,7 +304,7 @@ theorem dir_account (d : Directive) (name : Bytes) (incl : Bool) (path : Path) (
     · rintro ⟨_, a', t', c', s', r', he, _⟩; cases he
 
 theorem mem_accountLocs (name : Bytes) (incl : Bool) (path : Path) (j : Journal) (l : Loc) :
-    l ∈ accountLocs lns name incl path j ↔ ∃ n ∈ treeTNodes j, Match n .account name incl ∧ l = locOf lns path n := by
+    l ∈ accountLocs lns name incl path j ↔ ∃ n ∈ treeTNodes lns j, Match n .account name incl ∧ l = locOf lns path n := by
   simp only [treeTNodes, List.mem_append, List.mem_flatMap]
   constructor
   · intro h
@@ -357,7 +358,7 @@ theorem posting_commodity (p : Posting) (name : Bytes) (hne : name ≠ []) (incl
       ⟨rfl, hnm, Or.inr rfl⟩, hl⟩
 
 theorem tx_commodity (tx : Transaction) (name : Bytes) (hne : name ≠ []) (incl : Bool) (path : Path) (l : Loc) :
-    (∃ n ∈ txNodes tx, Match n .commodity name incl ∧ l = locOf lns path n) ↔
+    (∃ n ∈ txNodes lns tx, Match n .commodity name incl ∧ l = locOf lns path n) ↔
     ∃ p ∈ tx.postings, ∃ c ∈ postingCommodities p, c.symbol = name ∧ l = ⟨path, toLsp lns (ARange.ofRng c.range)⟩ := by
   constructor
   · rintro ⟨n, hn, hm, hl⟩
@@ -436,7 +437,7 @@ theorem dir_commodity (d : Directive) (name : Bytes) (hne : name ≠ []) (incl :
     · intro h; cases h
 
 theorem mem_commodityLocs (name : Bytes) (hne : name ≠ []) (incl : Bool) (path : Path) (j : Journal) (l : Loc) :
-    l ∈ commodityLocs lns name incl path j ↔ ∃ n ∈ treeTNodes j, Match n .commodity name incl ∧ l = locOf lns path n := by
+    l ∈ commodityLocs lns name incl path j ↔ ∃ n ∈ treeTNodes lns j, Match n .commodity name incl ∧ l = locOf lns path n := by
   simp only [treeTNodes, List.mem_append, List.mem_flatMap, commodityLocs, List.mem_filterMap]
   constructor
   · rintro (⟨d, hd, h⟩ | ⟨tx, htx, p, hp, c, hc, h⟩)
@@ -459,7 +460,7 @@ theorem mem_commodityLocs (name : Bytes) (hne : name ≠ []) (incl : Bool) (path
 /-! payees -/
 
 theorem mem_payeeLocs (name : Bytes) (hne : name ≠ []) (incl : Bool) (path : Path) (j : Journal) (l : Loc) :
-    l ∈ payeeLocs lns name path j ↔ ∃ n ∈ treeTNodes j, Match n .payee name incl ∧ l = locOf lns path n := by
+    l ∈ payeeLocs lns name path j ↔ ∃ n ∈ treeTNodes lns j, Match n .payee name incl ∧ l = locOf lns path n := by
   simp only [treeTNodes, List.mem_append, List.mem_flatMap, payeeLocs, List.mem_filterMap]
   constructor
   · rintro ⟨tx, htx, h⟩
@@ -467,7 +468,7 @@ theorem mem_payeeLocs (name : Bytes) (hne : name ≠ []) (incl : Bool) (path : P
     · rename_i hs
       simp only [beq_iff_eq] at hs
       simp only [Option.some.injEq] at h
-      refine ⟨payNode tx, Or.inl ⟨tx, htx, (mem_txNodes tx _).mpr (Or.inl ⟨by rw [hs]; exact hne, rfl⟩)⟩,
+      refine ⟨payNode lns tx, Or.inl ⟨tx, htx, (mem_txNodes tx _).mpr (Or.inl ⟨by rw [hs]; exact hne, rfl⟩)⟩,
         ⟨rfl, hs, Or.inr rfl⟩, ?_⟩
       rw [← h]; simp [locOf, payNode, hs]
     · cases h
@@ -662,7 +663,7 @@ theorem postings_complete (pos : LPos) (ps : List Posting) (p : Posting) (n : TN
 
 theorem txs_sound (pos : LPos) (txs : List Transaction) (t : Target)
     (h : targetInTxs lns pos txs = some t) :
-    ∃ tx ∈ txs, ∃ n ∈ txNodes tx, positionInRange pos n.range = true ∧ t = tgt lns n := by
+    ∃ tx ∈ txs, ∃ n ∈ txNodes lns tx, positionInRange pos n.range = true ∧ t = tgt lns n := by
   induction txs with
   | nil => simp [targetInTxs] at h
   | cons tx txs ih =>
@@ -671,7 +672,7 @@ theorem txs_sound (pos : LPos) (txs : List Transaction) (t : Target)
     · rename_i hc
       simp only [Bool.and_eq_true, bne_iff_ne, ne_eq] at hc
       simp only [Option.some.injEq] at h
-      exact ⟨tx, by simp, payNode tx, (mem_txNodes tx _).mpr (Or.inl ⟨hc.1, rfl⟩), hc.2, h.symm⟩
+      exact ⟨tx, by simp, payNode lns tx, (mem_txNodes tx _).mpr (Or.inl ⟨hc.1, rfl⟩), hc.2, h.symm⟩
     · split at h
       · rename_i t' ht'
         simp only [Option.some.injEq] at h
@@ -682,7 +683,7 @@ theorem txs_sound (pos : LPos) (txs : List Transaction) (t : Target)
         exact ⟨q, by simp [hq], n, hn, hr, ht⟩
 
 theorem txs_complete (pos : LPos) (txs : List Transaction) (tx : Transaction) (n : TNode)
-    (htx : tx ∈ txs) (hn : n ∈ txNodes tx) (hr : positionInRange pos n.range = true) :
+    (htx : tx ∈ txs) (hn : n ∈ txNodes lns tx) (hr : positionInRange pos n.range = true) :
     (targetInTxs lns pos txs).isSome = true := by
   induction txs with
   | nil => cases htx
@@ -813,7 +814,7 @@ theorem directives_complete (pos : LPos) (ds : List Directive) (d : Directive) (
 
 /-- `findDefinitionTarget` only ever answers with a name-bearing node under the cursor. -/
 theorem target_sound (j : Journal) (pos : LPos) (t : Target) (h : findDefinitionTargetR lns j pos = some t) :
-    ∃ n ∈ treeTNodes j, positionInRange pos n.range = true ∧ t = tgt lns n := by
+    ∃ n ∈ treeTNodes lns j, positionInRange pos n.range = true ∧ t = tgt lns n := by
   simp only [findDefinitionTargetR] at h
   split at h
   · rename_i t' ht'
@@ -825,7 +826,7 @@ theorem target_sound (j : Journal) (pos : LPos) (t : Target) (h : findDefinition
     exact ⟨n, by simp only [treeTNodes, List.mem_append, List.mem_flatMap]; exact Or.inr ⟨d, hd, hn⟩, hr, ht⟩
 
 /-- … and it answers whenever some name-bearing node is under the cursor. -/
-theorem target_complete (j : Journal) (pos : LPos) (n : TNode) (hn : n ∈ treeTNodes j)
+theorem target_complete (j : Journal) (pos : LPos) (n : TNode) (hn : n ∈ treeTNodes lns j)
     (hr : positionInRange pos n.range = true) : (findDefinitionTargetR lns j pos).isSome = true := by
   simp only [findDefinitionTargetR]
   split
@@ -952,7 +953,7 @@ theorem mem_locsOf (texts : Texts) (kind : Kind) (name : Bytes) (hne : name ≠ 
     (j : Journal) (l : Loc) :
     l ∈ locsOf texts kind name incl path j ↔
       ∃ s ∈ treeNodes (texts path) j, s.isSym kind name incl = true ∧ l = ⟨path, s.range⟩ := by
-  have key : (∃ n ∈ treeTNodes j, Match n kind name incl ∧ l = locOf (texts path) path n) ↔
+  have key : (∃ n ∈ treeTNodes (texts path) j, Match n kind name incl ∧ l = locOf (texts path) path n) ↔
       ∃ s ∈ treeNodes (texts path) j, s.isSym kind name incl = true ∧ l = ⟨path, s.range⟩ := by
     simp only [treeNodes, List.mem_map]
     constructor
